@@ -10,6 +10,7 @@ import (
 	"github.com/platinummonkey/go-concurrency-limits/core"
 	"github.com/platinummonkey/go-concurrency-limits/limit"
 	"github.com/platinummonkey/go-concurrency-limits/limit/functions"
+	"github.com/platinummonkey/go-concurrency-limits/measurements"
 	"pgregory.net/rapid"
 )
 
@@ -27,6 +28,7 @@ type LimitCfg struct {
 	RTTTol        float64 `json:"rtt_tol,omitempty"`
 	Queue         string  `json:"queue,omitempty"` // "" (library default) | fixed:k | sqrt:k | log10:k
 	LongWindow    int     `json:"long_window,omitempty"`
+	NoLoad        string  `json:"no_load,omitempty"` // vegas: caller-supplied baseline measurement: "" (default minimum) | single | expavg
 	Windowed      bool    `json:"windowed,omitempty"`
 	Traced        bool    `json:"traced,omitempty"`
 	WinSize       int32   `json:"win_size,omitempty"`
@@ -127,7 +129,14 @@ func buildLimit(c LimitCfg, reg core.MetricRegistry) built {
 	case "aimd":
 		inner = limit.NewAIMDLimit("t", c.Initial, c.Backoff, c.IncreaseBy, reg)
 	case "vegas":
-		inner = limit.NewVegasLimitWithRegistry("t", c.Initial, nil, c.Max, c.Smoothing, nil, nil, nil, nil, nil, c.ProbeMult, nil, reg)
+		var noLoad core.MeasurementInterface
+		switch c.NoLoad {
+		case "single":
+			noLoad = &measurements.SingleMeasurement{}
+		case "expavg":
+			noLoad = measurements.NewExponentialAverageMeasurement(20, 3)
+		}
+		inner = limit.NewVegasLimitWithRegistry("t", c.Initial, noLoad, c.Max, c.Smoothing, nil, nil, nil, nil, nil, c.ProbeMult, nil, reg)
 	case "gradient":
 		inner = limit.NewGradientLimitWithRegistry("t", c.Initial, c.Min, c.Max, c.Smoothing, queueFunc(c.Queue), c.RTTTol, c.ProbeInterval, nil, reg)
 	case "gradient2":
